@@ -29,7 +29,8 @@ def main():
     path, dg, secs, cached = export_ssa()
     prog = Program(path)
     db = ContractDB()
-    db.load_dir('/repo', prog.module)
+    from .check import REPO as _R
+    db.load_dir(_R, prog.module)
     ex = Executor(prog, db)
     for name in names:
         fn = prog.find(name)
